@@ -28,11 +28,16 @@ def model_margins(prog, rows, cols, step):
                 non[name] = p.get("filter_size", 3) * step
             elif m == "bilateral":
                 non[name] = min(rows, cols, int(3 * p.get("sigma_space", 6.0) + 1)) * step
+            elif m in stubs.LOPSIDED:
+                non[name] = stubs.LOPSIDED[m]
     total = sum(cum.values())
-    g = max([total] + list(non.values()))
+    sides = ("left", "up", "right", "down")
 
     def d(v):
-        return {"left": v, "up": v, "right": v, "down": v}
+        return dict(zip(sides, v)) if isinstance(v, tuple) else {k: v for k in sides}
+
+    # per side: the larger of the cumulated sum and each non-cumulative margin
+    g = tuple(max([total] + [d(v)[k] for v in non.values()]) for k in sides)
 
     return {
         "cumulative margins": {k: d(v) for k, v in cum.items()},
@@ -62,6 +67,12 @@ class C20:
         }
         prog = programs.build_program(rnd, w, kinds, overrides=ov, suffix_only_p=0.15 if rnd.random() < 0.3 else 0.0,
                                       allow_multi_dot=rnd.random() < 0.2)
+        if rnd.random() < 0.25:
+            # plugin filters whose margins differ from side to side
+            for st in prog:
+                if programs.kind_of(st[0]) == "filter" and rnd.random() < 0.7:
+                    st[1].clear()
+                    st[1]["filter_method"] = rnd.choice(sorted(stubs.LOPSIDED))
         mc = prog[0][1]
         if mc["matching_cost_method"] == "census":
             mc["window_size"] = rnd.choice([3, 5])
@@ -74,6 +85,7 @@ class C20:
     def execute(self, sc):
         w, prog, step = sc["world"], sc["program"], sc["step"]
         stubs.pandora2d_entry(step != 1)
+        stubs.register_lopsided_filters()
         ds = {"meta_left": world.build_meta(w, "left"), "meta_right": world.build_meta(w, "right")}
         names = [n for n, _ in prog]
         kinds = [programs.kind_of(n) for n in names]
@@ -156,6 +168,7 @@ class C20:
                     and min(w["rows"], w["cols"]) < int(3 * p.get("sigma_space", 6.0) + 1) for _, p in prog)),
                 "validation_present": int("validation" in kinds),
                 "optimization_present": int("optimization" in kinds),
+                "lopsided_plugin_margins": int(any(p.get("filter_method") in stubs.LOPSIDED for _, p in prog)),
                 "suffix_only_name": int(any(k not in names for k in kinds)),
             },
         }
